@@ -8,8 +8,8 @@ from gffutils.feature import feature_from_line
 from gv.model import dbutil, files, grammar as G
 
 ID = "C09"
-RULE = ("part 'cons': 36 dialects x 6 shapes x (n, checklines) -- dialect reported by DataIterator, FeatureDB (fresh, reopened) and "
-        "infer_dialect per line; part 'route': 36 dialects, GFF3 vs GTF import semantics; part 'mix': for 7 dialect-key contrasts every "
+RULE = ("part 'cons': 48 dialects x 6 shapes x (n, checklines) -- dialect reported by DataIterator, FeatureDB (fresh, reopened) and "
+        "infer_dialect per line; part 'route': 48 dialects, GFF3 vs GTF import semantics; part 'mix': for 7 dialect-key contrasts every "
         "sequence of <= 5 (quick) / 6 (thorough) lines each choosing value A/B and a weight; part 'supplied': explicit dialect used verbatim. "
         "Non-trivial = a non-default dialect, or a mixture where both values occur")
 ASSUMPTIONS = [
@@ -98,8 +98,15 @@ def body_cons(ch, ctx):
     ctx.check(dict(it2.dialect) == got, "feature-list-dialect-differs-from-path", sig, checklines=cl, file=texts[:3],
               path=got, features=dict(it2.dialect))
     for i, ((cols, items, extras), text) in enumerate(zip(lines, texts)):
-        per = dict(helpers.infer_dialect(text.split("\t")[8]))
+        first_answer = helpers.infer_dialect(text.split("\t")[8])
+        per = dict(first_answer)
         per["order"] = G.dedup(per.get("order", []))
+        # what the caller does with one answer must not change the next one
+        first_answer["fmt"] = "edited"
+        first_answer["order"].append("edited")
+        second = dict(helpers.infer_dialect(text.split("\t")[8]))
+        second["order"] = G.dedup(second.get("order", []))
+        ctx.check(second == per, "infer_dialect-answer-depends-on-earlier-caller-edits", sig, line=text, first=per, second=second)
         e = G.expected_dialect(d, items, full=True)
         b = [k for k in KEYS + ["order"] if per.get(k) != e[k]]
         ctx.check(not b, "infer_dialect-differs", dict(sig, keys=",".join(b)), line=text,
@@ -162,10 +169,14 @@ def body_mix(ch, ctx):
     _, mi, n, first = ctx.shard
     name, key, A, B, weights = MIX[mi]
     opts = [(v, w) for v in (0, 1) for w in weights]
-    seq = [opts[first]] + [ch.choose("line%d" % i, opts) for i in range(1, n)]
+    later = opts + [(None, 0)]          # a line with an empty attribute column: carries no vote at all
+    seq = [opts[first]] + [ch.choose("line%d" % i, later) for i in range(1, n)]
     rep = name == "repeated"
     texts = []
     for i, (v, w) in enumerate(seq):
+        if v is None:
+            texts.append(G.render_line(["c1", "s", "contig", str(10 * i + 1), str(10 * i + 5), ".", "+", "."], "", []))
+            continue
         d = (A, B)[v]
         cols, items, extras = mix_line(d, w, i, rep)
         texts.append(G.render_line(cols, G.render_attrs(d, items), extras))
@@ -174,7 +185,8 @@ def body_mix(ch, ctx):
     # reference vote: sum of weights (distinct keys) per value, ties to the value seen first
     tot = {}
     for v, w in seq:
-        tot[v] = tot.get(v, 0) + w
+        if v is not None:
+            tot[v] = tot.get(v, 0) + w
     best = max(tot.values())
     winner = [v for v in tot if tot[v] == best][0]      # dict keeps first-seen order
     expd = G.expected_dialect((A, B)[winner], mix_line((A, B)[winner], 2, 0, True)[1], full=True)
